@@ -8,6 +8,16 @@
 // different orders) with an injected HelperRunner, and every host of interest is looked up in
 // three orders per load with ConfigFile.EntryForRegistry.  The case carries, per host, every
 // DISTINCT observation (entry fields, error class, runner calls) - never error prose.
+//
+// A second family of cases uses the REAL helper runner (nil HelperRunner: ociauth runs
+// docker-credential-NAME from PATH): the harness writes helper files into scratch directories
+// under -out (shell scripts that answer per host with credentials, a token, "credentials not
+// found", other messages, on stdout or stderr, with any exit status or dying from a signal;
+// executable files that cannot be started; files without an execute bit; directories and
+// dangling links of that name; nothing), makes those directories the whole of PATH for the
+// duration of the case, and observes the lookups as before.  The case carries what was put on
+// PATH; the model of ExecHelperWithEnv (Model/AuthExec.v) and the specification predict the
+// classification found / not found / other error from it.
 // Public API only; no hooks.
 package main
 
@@ -97,7 +107,38 @@ type rent struct {
 	Res    rres `json:"res"`
 }
 
+// how a helper program ends for one standard input
+type pendIn struct {
+	Exit0 bool   `json:"exit0"`
+	Out   S      `json:"out"`
+	How   string `json:"how,omitempty"` // "" stdout, "stderr", "split" (half stdout, half stderr), "signal" (stdout, then SIGKILL)
+	Kind  string `json:"kind,omitempty"` // the generator's name for it (statistics only)
+}
+
+type answerIn struct {
+	Host S      `json:"host"`
+	End  pendIn `json:"end"`
+}
+
+// one name in one PATH directory
+type pfileIn struct {
+	File    string     `json:"file"` // the file name
+	Kind    string     `json:"kind"` // dir noexec dangling broken-format broken-empty broken-interp prog prog-link
+	Answers []answerIn `json:"answers,omitempty"`
+	Default pendIn     `json:"default"`
+}
+
+// the real helper runner: what PATH holds, and the entry point used.
+// Mode: "nil" LoadWithEnv(nil, env); "load" Load(nil) with the process environment;
+// "wrap" LoadWithEnv(recording wrapper around ExecHelperWithEnv(env), env); "wrap-default" the
+// same around ExecHelper.
+type execIn struct {
+	Path [][]pfileIn `json:"path"`
+	Mode string      `json:"mode"`
+}
+
 type input struct {
+	Exec          *execIn   `json:"exec,omitempty"`
 	Auths         []entryIn `json:"auths"`
 	AuthsMode     string    `json:"auths_mode,omitempty"` // "", "absent", "null"
 	CredsStore    S         `json:"credsStore,omitempty"`
@@ -222,6 +263,19 @@ func runCase(cfg *hx.Config, in input, origin string, tags map[string]any) []hx.
 	}
 	defer os.RemoveAll(dir)
 
+	var binDirs []string
+	if in.Exec != nil {
+		binDirs = installPath(dir, in.Exec.Path)
+		restore := setenvs(map[string]string{"PATH": strings.Join(binDirs, string(os.PathListSeparator))})
+		defer restore()
+		if in.Exec.Mode == "load" {
+			if in.Location != "" {
+				panic("mode load needs the DOCKER_CONFIG location")
+			}
+			defer setenvs(map[string]string{"DOCKER_CONFIG": dir})()
+		}
+	}
+
 	table := map[[2]string]rres{}
 	for _, r := range in.Runner {
 		k := [2]string{string(r.Helper), string(r.Host)}
@@ -237,8 +291,37 @@ func runCase(cfg *hx.Config, in input, origin string, tags map[string]any) []hx.
 		}
 		return in.RunnerDefault.result()
 	}
+	callsSeen := true
+	load := func() (*ociauth.ConfigFile, error) { return ociauth.LoadWithEnv(runner, env) }
+	if in.Exec != nil {
+		record := func(real ociauth.HelperRunner) ociauth.HelperRunner {
+			return func(helperName, serverURL string) (ociauth.ConfigEntry, error) {
+				calls = append(calls, [2]string{helperName, serverURL})
+				return real(helperName, serverURL)
+			}
+		}
+		switch in.Exec.Mode {
+		case "nil":
+			callsSeen = false
+			load = func() (*ociauth.ConfigFile, error) { return ociauth.LoadWithEnv(nil, env) }
+		case "load":
+			callsSeen = false
+			load = func() (*ociauth.ConfigFile, error) { return ociauth.Load(nil) }
+		case "wrap":
+			load = func() (*ociauth.ConfigFile, error) {
+				return ociauth.LoadWithEnv(record(ociauth.ExecHelperWithEnv(env)), env)
+			}
+		case "wrap-default":
+			load = func() (*ociauth.ConfigFile, error) { return ociauth.LoadWithEnv(record(ociauth.ExecHelper), env) }
+		default:
+			panic("unknown exec mode " + in.Exec.Mode)
+		}
+	}
 
-	const loads = 20
+	loads := 20
+	if in.Exec != nil {
+		loads = 2 // every lookup starts a process; the map iteration order is the other streams' business
+	}
 	// deterministic per input, independent of the global stream (so that a replay repeats it)
 	lr := rand.New(rand.NewSource(int64(len(doc))*7919 + int64(len(in.Hosts))))
 	loadFailed, loadPanic, loadOk := 0, 0, 0
@@ -259,7 +342,7 @@ func runCase(cfg *hx.Config, in input, origin string, tags map[string]any) []hx.
 	for l := 0; l < loads; l++ {
 		var cf *ociauth.ConfigFile
 		var err error
-		p, _ := hx.Recover(func() { cf, err = ociauth.LoadWithEnv(runner, env) })
+		p, _ := hx.Recover(func() { cf, err = load() })
 		switch {
 		case p:
 			loadPanic++
@@ -286,6 +369,12 @@ func runCase(cfg *hx.Config, in input, origin string, tags map[string]any) []hx.
 				var e ociauth.ConfigEntry
 				var lerr error
 				p, pv := hx.Recover(func() { e, lerr = cf.EntryForRegistry(string(h)) })
+				if in.Exec != nil {
+					logged := collectCallLogs(binDirs)
+					if !callsSeen {
+						calls = logged
+					}
+				}
 				if p {
 					record(h, "LPanic", "panic: "+pv)
 					continue
@@ -332,9 +421,13 @@ func runCase(cfg *hx.Config, in input, origin string, tags map[string]any) []hx.
 	for _, r := range in.Runner {
 		rs = append(rs, fmt.Sprintf("(%s, %s, %s)", hx.B(string(r.Helper)), hx.B(string(r.Host)), coqRes(r.Res)))
 	}
+	path := "None"
+	if in.Exec != nil {
+		path = "(Some " + coqPath(in.Exec.Path) + ")"
+	}
 	mk := func(load string, lookups []string) string {
-		return fmt.Sprintf("{| c_auths := %s; c_store := %s; c_helpers := %s; c_runner := %s; c_rdefault := %s; c_load := %s; c_lookups := %s |}",
-			hx.List(es), hx.B(string(in.CredsStore)), hx.List(hs), hx.List(rs), coqRes(in.RunnerDefault), load, hx.List(lookups))
+		return fmt.Sprintf("{| c_auths := %s; c_store := %s; c_helpers := %s; c_runner := %s; c_rdefault := %s; c_path := %s; c_calls_seen := %s; c_load := %s; c_lookups := %s |}",
+			hx.List(es), hx.B(string(in.CredsStore)), hx.List(hs), hx.List(rs), coqRes(in.RunnerDefault), path, hx.Bool(callsSeen), load, hx.List(lookups))
 	}
 	var out []hx.Case
 	emit := func(load string, n int, lookups []string, shown []*lookupObs) {
@@ -388,6 +481,188 @@ func runCase(cfg *hx.Config, in input, origin string, tags map[string]any) []hx.
 		emit("LoadOk", loadOk, lookups, shown)
 	}
 	return out
+}
+
+// ---------------------------------------------------------------- real helper programs
+
+// setenvs sets process environment variables and returns the function that puts the old values back.
+func setenvs(kv map[string]string) func() {
+	type old struct {
+		v  string
+		ok bool
+	}
+	olds := map[string]old{}
+	for k, v := range kv {
+		ov, ok := os.LookupEnv(k)
+		olds[k] = old{ov, ok}
+		if err := os.Setenv(k, v); err != nil {
+			panic(err)
+		}
+	}
+	return func() {
+		for k, o := range olds {
+			if o.ok {
+				os.Setenv(k, o.v)
+			} else {
+				os.Unsetenv(k)
+			}
+		}
+	}
+}
+
+func shq(s string) string { return "'" + strings.ReplaceAll(s, "'", `'\''`) + "'" }
+
+func (e pendIn) script() string {
+	out := string(e.Out)
+	status := "0"
+	if !e.Exit0 {
+		status = []string{"1", "2", "255"}[len(out)%3]
+	}
+	switch e.How {
+	case "stderr":
+		return fmt.Sprintf("printf '%%s' %s >&2; exit %s", shq(out), status)
+	case "split":
+		h := len(out) / 2
+		return fmt.Sprintf("printf '%%s' %s; printf '%%s' %s >&2; exit %s", shq(out[:h]), shq(out[h:]), status)
+	case "signal":
+		if e.Exit0 {
+			panic("a process killed by a signal does not exit with status 0")
+		}
+		return fmt.Sprintf("printf '%%s' %s; kill -KILL $$; sleep 5; exit 0", shq(out))
+	case "":
+		return fmt.Sprintf("printf '%%s' %s; exit %s", shq(out), status)
+	}
+	panic("unknown how " + e.How)
+}
+
+// helperScript is a credential helper: it insists on the single argument get, reads the server
+// URL from standard input, logs it next to itself and answers as told.  Shell builtins only (the
+// process may be started with an environment that has no PATH).
+func helperScript(f pfileIn) string {
+	var sb strings.Builder
+	sb.WriteString("#!/bin/sh\n")
+	sb.WriteString("if [ \"$#\" -ne 1 ] || [ \"$1\" != get ]; then echo \"usage: $0 get\"; exit 64; fi\n")
+	sb.WriteString("host=\nIFS= read -r host || :\n")
+	sb.WriteString("printf '%s\\n' \"$host\" >> \"$0.calls\"\n")
+	sb.WriteString("case \"$host\" in\n")
+	seen := map[string]bool{}
+	for _, a := range f.Answers {
+		if seen[string(a.Host)] { // first entry wins, as map_get in the model
+			continue
+		}
+		seen[string(a.Host)] = true
+		fmt.Fprintf(&sb, "%s) %s ;;\n", shq(string(a.Host)), a.End.script())
+	}
+	fmt.Fprintf(&sb, "*) %s ;;\nesac\n", f.Default.script())
+	return sb.String()
+}
+
+// installPath creates one directory per PATH element under dir and fills it.
+func installPath(dir string, path [][]pfileIn) []string {
+	must := func(err error) {
+		if err != nil {
+			panic(err)
+		}
+	}
+	var dirs []string
+	for i, d := range path {
+		bin := filepath.Join(dir, fmt.Sprintf("bin%d", i))
+		must(os.MkdirAll(bin, 0o755))
+		dirs = append(dirs, bin)
+		seen := map[string]bool{}
+		for j, f := range d {
+			if seen[f.File] || f.File == "" || strings.ContainsAny(f.File, "/\x00") {
+				panic("bad helper file name in PATH directory: " + f.File)
+			}
+			seen[f.File] = true
+			name := filepath.Join(bin, f.File)
+			switch f.Kind {
+			case "dir":
+				must(os.Mkdir(name, 0o755))
+			case "noexec":
+				must(os.WriteFile(name, []byte(helperScript(f)), 0o644))
+			case "dangling":
+				must(os.Symlink(filepath.Join(dir, "nowhere", f.File), name))
+			case "broken-format":
+				must(os.WriteFile(name, []byte("\x00\x01\x02 this is not a program\n"), 0o755))
+			case "broken-empty":
+				must(os.WriteFile(name, nil, 0o755))
+			case "broken-interp":
+				must(os.WriteFile(name, []byte("#!"+filepath.Join(dir, "nowhere", "interpreter")+"\n"+helperScript(f)), 0o755))
+			case "prog":
+				must(os.WriteFile(name, []byte(helperScript(f)), 0o755))
+			case "prog-link":
+				tdir := filepath.Join(dir, fmt.Sprintf("target%d_%d", i, j))
+				must(os.MkdirAll(tdir, 0o755))
+				must(os.WriteFile(filepath.Join(tdir, "helper"), []byte(helperScript(f)), 0o755))
+				must(os.Symlink(filepath.Join(tdir, "helper"), name))
+			default:
+				panic("unknown file kind " + f.Kind)
+			}
+		}
+	}
+	return dirs
+}
+
+// collectCallLogs returns (helper name, standard input) for every start of a helper script since
+// the last call, and empties the logs.
+func collectCallLogs(dirs []string) [][2]string {
+	var calls [][2]string
+	for _, d := range dirs {
+		logs, _ := filepath.Glob(filepath.Join(d, "*.calls"))
+		sort.Strings(logs)
+		for _, l := range logs {
+			b, err := os.ReadFile(l)
+			os.Remove(l)
+			if err != nil {
+				continue
+			}
+			name := strings.TrimSuffix(filepath.Base(l), ".calls")
+			helper, ok := strings.CutPrefix(name, "docker-credential-")
+			if !ok {
+				helper = "(file " + name + ")" // a program that is not a credential helper was started
+			}
+			for _, line := range strings.Split(strings.TrimSuffix(string(b), "\n"), "\n") {
+				calls = append(calls, [2]string{helper, line})
+			}
+		}
+	}
+	return calls
+}
+
+func coqPend(e pendIn) string {
+	return fmt.Sprintf("(PE %s %s)", hx.Bool(e.Exit0), hx.B(string(e.Out)))
+}
+
+func coqPath(path [][]pfileIn) string {
+	var ds []string
+	for _, d := range path {
+		var fs []string
+		for _, f := range d {
+			var k string
+			switch f.Kind {
+			case "dir":
+				k = "FDir"
+			case "noexec":
+				k = "FNoExec"
+			case "dangling":
+				k = "FDangling"
+			case "broken-format", "broken-empty", "broken-interp":
+				k = "FBroken"
+			case "prog", "prog-link":
+				var as []string
+				for _, a := range f.Answers {
+					as = append(as, "("+hx.B(string(a.Host))+", "+coqPend(a.End)+")")
+				}
+				k = "(FProg " + hx.List(as) + " " + coqPend(f.Default) + ")"
+			default:
+				panic("unknown file kind " + f.Kind)
+			}
+			fs = append(fs, "("+hx.B(f.File)+", "+k+")")
+		}
+		ds = append(ds, hx.List(fs))
+	}
+	return hx.List(ds)
 }
 
 // ---------------------------------------------------------------- generators
@@ -721,8 +996,255 @@ func (g *gen) random(out *hx.Out) input {
 	return in
 }
 
+// ---------------------------------------------------------------- generators for the real runner
+
+const (
+	helperFilePrefix = "docker-credential-"
+	notFoundMsg      = "credentials not found in native keychain"
+)
+
+func credsJSON(u, p string) string {
+	return `{"ServerURL":"registry","Username":"` + u + `","Secret":"` + p + `"}`
+}
+
+var answerKindNames = []string{"credentials", "token", "not-found", "not-found-padded", "not-found-stderr", "not-found-split",
+	"other-message", "not-found-with-suffix", "not-found-exit0", "credentials-exit1", "empty-exit0", "empty-exit1", "garbage-exit0",
+	"killed", "not-found-then-killed", "credentials-no-newline", "credentials-punctuation", "not-found-capitalised", "not-found-prefix",
+	"credentials-stderr"}
+
+// answer builds how a helper program ends; id makes the credentials distinct.
+func answer(kind int, id string) pendIn {
+	e := answerOf(kind, id)
+	e.Kind = answerKindNames[kind]
+	return e
+}
+
+func answerOf(kind int, id string) pendIn {
+	switch kind {
+	case 0:
+		return pendIn{Exit0: true, Out: S(credsJSON("hu-"+id, "hp-"+id) + "\n")}
+	case 1:
+		return pendIn{Exit0: true, Out: S(credsJSON("<token>", "tok-"+id) + "\n")}
+	case 2:
+		return pendIn{Out: notFoundMsg + "\n"}
+	case 3:
+		return pendIn{Out: " \t\n" + notFoundMsg + "\r\n\n \v\f"}
+	case 4:
+		return pendIn{Out: notFoundMsg + "\n", How: "stderr"}
+	case 5:
+		return pendIn{Out: notFoundMsg + "\n", How: "split"}
+	case 6:
+		return pendIn{Out: S("error: keychain is locked (" + id + ")\n")}
+	case 7:
+		return pendIn{Out: S(notFoundMsg + ": " + id + "\n")}
+	case 8:
+		return pendIn{Exit0: true, Out: notFoundMsg + "\n"}
+	case 9:
+		return pendIn{Out: S(credsJSON("hu-"+id, "hp-"+id) + "\n")}
+	case 10:
+		return pendIn{Exit0: true}
+	case 11:
+		return pendIn{}
+	case 12:
+		return pendIn{Exit0: true, Out: S("Error: no credentials for " + id + "\n")}
+	case 13:
+		return pendIn{Out: "partial output", How: "signal"}
+	case 14:
+		return pendIn{Out: notFoundMsg + "\n", How: "signal"}
+	case 15:
+		return pendIn{Exit0: true, Out: S(credsJSON("hu-"+id, "hp-"+id))}
+	case 16:
+		return pendIn{Exit0: true, Out: S(credsJSON("a b'c{}<token>,:"+id, "$HOME `x` %s ' ;#"+id) + "\n")}
+	case 17:
+		return pendIn{Out: "Credentials not found in native keychain\n"}
+	case 18:
+		return pendIn{Out: "credentials not found\n"}
+	default:
+		return pendIn{Exit0: true, Out: S(credsJSON("hu-"+id, "hp-"+id) + "\n"), How: "stderr"}
+	}
+}
+
+var execModes = []string{"nil", "wrap", "load", "wrap-default"}
+
+// what one PATH directory holds under the helper's name
+var pathShapes = [][]string{
+	nil,          // PATH has no directories at all
+	{""},         // nothing of that name
+	{"dir"},
+	{"noexec"},
+	{"dangling"},
+	{"broken-format"},
+	{"broken-empty"},
+	{"broken-interp"},
+	{"prog"},
+	{"prog-link"},
+	{"", "prog"},
+	{"dir", "prog"},
+	{"noexec", "prog"},
+	{"dangling", "prog-link"},
+	{"noexec", "broken-format"},
+	{"dir", "broken-interp", "prog"},
+	{"broken-empty", "prog"},
+	{"prog", "broken-format"},
+	{"dir", "noexec", "dangling"},
+	{"prog:2", "prog"}, // the first program is the helper: it says not found, the second has credentials
+	{"noexec:0", "dir", "prog:6"},
+}
+
+// shapePath builds the PATH directories for helper name from a shape; other names are noise.
+func shapePath(shape []string, name string, hosts []S) [][]pfileIn {
+	var path [][]pfileIn
+	for i, k := range shape {
+		var d []pfileIn
+		// noise: a program under the bare helper name and one under a longer name
+		d = append(d, pfileIn{File: name, Kind: "prog", Default: answer(0, "bare-name")},
+			pfileIn{File: helperFilePrefix + name + "-x", Kind: "prog", Default: answer(0, "longer-name")})
+		if k != "" {
+			kind, ak := k, 0
+			if j := strings.Index(k, ":"); j >= 0 {
+				kind = k[:j]
+				fmt.Sscanf(k[j+1:], "%d", &ak)
+			}
+			f := pfileIn{File: helperFilePrefix + name, Kind: kind, Default: answer(2, "")}
+			for _, h := range hosts {
+				f.Answers = append(f.Answers, answerIn{h, answer(ak, fmt.Sprintf("%s/%s@%d", name, h, i))})
+			}
+			d = append(d, f)
+		}
+		path = append(path, d)
+	}
+	return path
+}
+
+func execStreams(g *gen, add func(input, string, map[string]any), n int) {
+	host, other := "reg.example.com", "other.example"
+	hosts := []S{S(host), S(other), "absent.example"}
+	tableFor := func(in *input, table int) {
+		switch table {
+		case 1:
+			in.Auths = []entryIn{{Key: S(host), Username: "tu", Password: "tp"}, {Key: S(other), Username: "ou", Password: "op"}}
+		case 2:
+			in.Auths = []entryIn{{Key: S("https://" + host + "/v1/"), Username: "du", Password: "dp"}, {Key: S(other), IdentityToken: "oidt"}}
+		}
+	}
+	// -- classification of what PATH holds x where the helper is named x table
+	for si, shape := range pathShapes {
+		for prec := 0; prec < 4; prec++ {
+			var in input
+			table := 1
+			if prec == 3 {
+				table = 0
+			}
+			tableFor(&in, table)
+			var path [][]pfileIn
+			switch prec {
+			case 0, 3: // the default store
+				in.CredsStore = "store"
+				path = shapePath(shape, "store", hosts[:2])
+			case 1: // a per-host helper, and a working default store behind it
+				in.CredHelpers = []kv{{S(host), "perhost"}}
+				in.CredsStore = "store"
+				path = shapePath(shape, "perhost", hosts[:2])
+				path = append(path, []pfileIn{{File: helperFilePrefix + "store", Kind: "prog", Default: answer(0, "store")}})
+			case 2: // the default store, and a working per-host helper for the other host
+				in.CredsStore = "store"
+				in.CredHelpers = []kv{{S(other), "otherhelper"}}
+				path = shapePath(shape, "store", hosts[:2])
+				path = append(path, []pfileIn{{File: helperFilePrefix + "otherhelper", Kind: "prog", Default: answer(1, "otherhelper")}})
+			}
+			in.Exec = &execIn{Path: path, Mode: execModes[(si+prec)%len(execModes)]}
+			in.Hosts = hosts
+			add(in, "exec-classify", map[string]any{"shape": si, "prec": prec})
+		}
+	}
+	// -- every way a helper program can end x where the helper is named
+	for ak := range answerKindNames {
+		for prec := 0; prec < 2; prec++ {
+			var in input
+			tableFor(&in, 1+ak%2)
+			name := "store"
+			if prec == 1 {
+				name = "perhost"
+				in.CredHelpers = []kv{{S(host), "perhost"}}
+			} else {
+				in.CredsStore = "store"
+			}
+			f := pfileIn{File: helperFilePrefix + name, Kind: "prog", Default: answer(0, "default")}
+			f.Answers = []answerIn{{S(host), answer(ak, name+"/"+host)}}
+			in.Exec = &execIn{Path: [][]pfileIn{{f}}, Mode: execModes[(ak+2*prec)%len(execModes)]}
+			in.Hosts = hosts
+			add(in, "exec-answers", map[string]any{"answer": answerKindNames[ak], "prec": prec})
+		}
+	}
+	// -- random: documents with up to three helper names, one to three PATH directories
+	kinds := []string{"", "", "dir", "noexec", "dangling", "broken-format", "broken-empty", "broken-interp", "prog", "prog", "prog", "prog-link"}
+	for i := 0; i < n; i++ {
+		var in input
+		tableFor(&in, g.r.Intn(3))
+		names := map[string]bool{}
+		if g.r.Intn(10) < 7 {
+			in.CredsStore = S(g.pick(helperNames))
+			names[string(in.CredsStore)] = true
+		}
+		for _, h := range hosts {
+			if g.r.Intn(10) < 3 {
+				v := g.pick(helperNames)
+				if g.r.Intn(8) == 0 {
+					v = ""
+				}
+				in.CredHelpers = append(in.CredHelpers, kv{h, S(v)})
+				if v != "" {
+					names[v] = true
+				}
+			}
+		}
+		var nl []string
+		for nm := range names {
+			nl = append(nl, nm)
+		}
+		sort.Strings(nl)
+		nd := 1 + g.r.Intn(3)
+		path := make([][]pfileIn, nd)
+		for d := 0; d < nd; d++ {
+			for _, nm := range nl {
+				k := g.pick(kinds)
+				if k == "" {
+					continue
+				}
+				f := pfileIn{File: helperFilePrefix + nm, Kind: k, Default: answer(g.r.Intn(len(answerKindNames)), fmt.Sprintf("%s@%d", nm, d))}
+				for _, h := range hosts {
+					if g.r.Intn(2) == 0 {
+						f.Answers = append(f.Answers, answerIn{h, answer(g.r.Intn(len(answerKindNames)), fmt.Sprintf("%s/%s@%d", nm, h, d))})
+					}
+				}
+				path[d] = append(path[d], f)
+			}
+		}
+		in.Exec = &execIn{Path: path, Mode: execModes[g.r.Intn(len(execModes))]}
+		in.Hosts = append([]S(nil), hosts...)
+		g.r.Shuffle(len(in.Hosts), func(i, j int) { in.Hosts[i], in.Hosts[j] = in.Hosts[j], in.Hosts[i] })
+		add(in, "exec-random", nil)
+	}
+}
+
 func features(in input) []string {
 	var f []string
+	if in.Exec != nil {
+		f = append(f, "exec:mode="+in.Exec.Mode, fmt.Sprintf("exec:path-dirs=%d", len(in.Exec.Path)))
+		for _, d := range in.Exec.Path {
+			for _, pf := range d {
+				if !strings.HasPrefix(pf.File, helperFilePrefix) || strings.HasSuffix(pf.File, "-x") {
+					continue
+				}
+				f = append(f, "exec:file="+pf.Kind)
+				if pf.Kind == "prog" || pf.Kind == "prog-link" {
+					for _, a := range pf.Answers {
+						f = append(f, "exec:answer="+a.End.Kind)
+					}
+				}
+			}
+		}
+	}
 	byHost := map[string]int{}
 	explicit := map[string]bool{}
 	for _, e := range in.Auths {
@@ -878,10 +1400,12 @@ func main() {
 	}
 	g := &gen{r: cfg.Rand()}
 	enumerated(g, add)
-	n := 1000
+	n, nx := 1000, 60
 	if cfg.Thorough() {
-		n = 12000
+		n, nx = 12000, 600
 	}
+	// the real-runner streams draw from a generator of their own (the other streams keep theirs)
+	execStreams(&gen{r: rand.New(rand.NewSource(cfg.Seed*7919 + 19))}, add, nx)
 	for i := 0; i < n; i++ {
 		add(g.random(out), "random", nil)
 	}
